@@ -41,6 +41,21 @@ At(e, env, p) ==
 
 Eval(e, env, n) == TLCEval([p \in 1..n |-> At(e, env, p)])
 
+\* complex element types: values are pairs <<re, im>>; the ring operations only (unary minus, + - *)
+RECURSIVE AtC(_, _, _)
+AtC(e, env, p) ==
+    CASE e.k = "t" -> env[e.n][p]
+      [] e.k = "s" -> e.v
+      [] e.k = "neg" -> Neg(AtC(e.x, env, p), TRUE)
+      [] e.k = "add" -> Add(AtC(e.l, env, p), AtC(e.r, env, p), TRUE)
+      [] e.k = "sub" -> Sub(AtC(e.l, env, p), AtC(e.r, env, p), TRUE)
+      [] e.k = "mul" -> Mul(AtC(e.l, env, p), AtC(e.r, env, p), TRUE)
+EvalC(e, env, n) == TLCEval([p \in 1..n |-> AtC(e, env, p)])
+RECURSIVE RingOnly(_)
+RingOnly(e) == CASE e.k \in {"t", "s"} -> TRUE [] e.k = "neg" -> RingOnly(e.x)
+                 [] e.k \in {"add", "sub", "mul"} -> RingOnly(e.l) /\ RingOnly(e.r) [] OTHER -> FALSE
+AssignC(aop, pre, val) == [p \in 1..Len(val) |-> Comb(aop, pre[p], val[p], TRUE)]
+
 \* the exactness domain: every sqrt argument is a perfect square, every division exact with non-zero divisor,
 \* every intermediate below 2^24 in magnitude (exact in float)
 RECURSIVE DomAt(_, _, _)
